@@ -1310,6 +1310,232 @@ def work_route(job):
 
 
 # ---------------------------------------------------------------------------
+# part rroute (audit round 2): NRT sends made from INSIDE A ROUTINE at a
+# logical time > 0 (SystemClock and a TempoClock).  There the interface adds
+# the logical time of the send to every latency, nested ones included, both in
+# the encoded datagram (score.raw) and in the list form (score.list): the raw
+# bytes are decoded and every (nested) timetag must be logical time + that
+# bundle's latency, and agree with the list entry.  With 'twice' the same
+# list object is sent again 0.5 beats later (a loop re-using its bundle): the
+# library must not have altered the caller's list.
+
+LATS_R = [None, -1, 0, 0.1, 0.5, 1, 2.75]
+TIMELINES = [['sys', [0.25]], ['sys', [0.25, 2.5]], ['tempo2', [0.25, 2.5]],
+             ['sys', [0.1]], ['sys', []]]
+_rroute = {}
+
+
+def rroute_cases(thorough):
+    if thorough in _rroute:
+        return _rroute[thorough]
+    M = [['/a'], ['/ab', {'b': '31'}, '\xf1', 1e-3]]
+    shapes = []          # (via, data, deep)
+    for t in LATS_R:
+        shapes.append(('send_bundle', [t, M[0]], False))
+        for u in LATS_R:
+            shapes.append(('send_bundle', [t, M[0], [u, M[1]]], False))
+            shapes.append(('send_bundle', [t, [u, M[1]], M[0]], False))
+            shapes.append(('send_msg', ['/c', [t, M[0], [u, M[1]]]], False))
+    for t in (LATS_R if thorough else LATS_S):
+        for u in LATS_S:
+            for v in LATS_S:
+                shapes.append(('send_bundle', [t, [u, [v, M[1]]]], True))
+                shapes.append(('send_bundle',
+                               [t, M[0], [u, M[0], [v, M[1]]]], True))
+                shapes.append(('send_msg',
+                               ['/c', [t, [u, [v, M[1]]]]], True))
+    for u in LATS_S:
+        shapes.append(('send_bundle', [0.0, [u, [u, [u, [u, M[1]]]]]], True))
+    cases = []
+    for clock, yields in TIMELINES:
+        for via, data, deep in shapes:
+            for twice in ((False, True) if deep or thorough else (False,)):
+                cases.append({'rr': via, 'clock': clock, 'yields': yields,
+                              'data': data, 'twice': twice})
+    _rroute[thorough] = cases
+    return cases
+
+
+def rroute_standalone(case):
+    py = jv(case['data'])
+    call = f"n.send_msg(*b)" if case['rr'] == 'send_msg' \
+        else "n.send_bundle(*b)"
+    clock = 'TempoClock(2)' if case['clock'] == 'tempo2' else 'SystemClock'
+    return ("import sc3; sc3.init('nrt')\n"
+            "from sc3.base.main import main\n"
+            "from sc3.base.netaddr import NetAddr\n"
+            "from sc3.base.stream import Routine\n"
+            "from sc3.base.clock import TempoClock, SystemClock\n"
+            "n = NetAddr('127.0.0.1', 57110)\n"
+            f"b = {pyrepr(py)}\n"
+            "def r():\n"
+            f"    for y in {case['yields']!r}:\n"
+            "        yield y\n"
+            f"    {call}\n" +
+            (f"    yield 0.5\n    {call}\n" if case['twice'] else "") +
+            f"Routine(r).play({clock})\n"
+            "main._clock_scheduler.run()\n"
+            "for t, e in main._osc_interface._osc_score._scoreq:\n"
+            "    print(t, e.bndl, bytes(e.msg)[4:])\n")
+
+
+def _list_vs_raw(lst, dec, path='$'):
+    """score.list form [abs seconds, element, ...] against the decoded
+    datagram: same nesting, every timetag = seconds * 2**32 (+-2 units)."""
+    if dec['type'] != 'bundle' or not isinstance(lst, list) or not lst or \
+            isinstance(lst[0], str):
+        return f'{path}: list form {_short(lst)} is not a bundle like the ' \
+               'datagram'
+    try:
+        want = int(lst[0] * oc.TWO32)
+    except Exception:
+        return f'{path}: list time {lst[0]!r}'
+    if abs(want - dec['timetag']) > 2 and not (
+            dec['timetag'] == 1 and lst[0] is not None):
+        return (f'{path}: list says {lst[0]!r} s = {want}, datagram carries '
+                f'{dec["timetag"]} = {dec["timetag"] / oc.TWO32!r} s')
+    if len(lst) - 1 != len(dec['elements']):
+        return f'{path}: {len(lst) - 1} list elements, ' \
+               f'{len(dec["elements"])} in the datagram'
+    for i, (a, b) in enumerate(zip(lst[1:], dec['elements'])):
+        if b['type'] == 'bundle':
+            r = _list_vs_raw(a, b, f'{path}[{i}]')
+            if r:
+                return r
+    return None
+
+
+def check_rroute(case):
+    L = lib()
+    from sc3.base.stream import Routine
+    L['main'].reset()
+    via = case['rr']
+    tempo = 2.0 if case['clock'] == 'tempo2' else 1.0
+    base = sum(case['yields']) / tempo        # beats -> seconds
+    bases = [base] + ([base + 0.5 / tempo] if case['twice'] else [])
+    py = jv(case['data'])
+    pristine = jv(case['data'])
+    vds, exps = [], []
+    for b in bases:
+        vd = Verdict()
+        if via == 'send_msg':
+            e = {'type': 'bundle', 'timetag': exp_timetag_at(None, b),
+                 'elements': [exp_message(pristine, vd, b)]}
+        else:
+            e = exp_bundle(pristine, vd, b)
+        vds.append(vd)
+        exps.append(e)
+    state = {'errs': [], 'ran': False}
+    clock = None
+    if case['clock'] == 'tempo2':
+        from sc3.base.clock import TempoClock
+        clock = TempoClock(2)
+
+    def send():
+        try:
+            if via == 'send_msg':
+                L['addr'].send_msg(*py)
+            else:
+                L['addr'].send_bundle(py[0], *py[1:])
+            state['errs'].append(None)
+        except Exception as e:
+            state['errs'].append(e)
+
+    def body():
+        for y in case['yields']:
+            yield y
+        send()
+        if case['twice']:
+            yield 0.5
+            send()
+        state['ran'] = True
+
+    warmup()
+    try:
+        Routine(body).play(clock) if clock is not None \
+            else Routine(body).play()
+        L['main']._clock_scheduler.run()
+        entries = [(e.bndl, bytes(e.msg)) for _, e in
+                   L['main']._osc_interface._osc_score._scoreq][1:]
+    finally:
+        if clock is not None:
+            try:
+                clock.stop()
+            except Exception:
+                pass
+        L['main'].reset()
+    if not state['ran'] or len(state['errs']) != len(bases):
+        raise core.HarnessError(f'routine did not run: {case!r}')
+    dis = []
+    outcome = []
+    k = 0
+    for i, (b, vd, exp, err) in enumerate(zip(bases, vds, exps,
+                                             state['errs'])):
+        nth = 'second-' if i else ''
+        if err is not None:
+            outcome.append(['refused', exc_name(err)])
+            if vd.status == ACCEPT:
+                dis.append((f'rroute-{nth}representable-refused', 'accepted',
+                            f'{exc_name(err)}: {err}'[:300],
+                            f'send at logical time {b} s'))
+            continue
+        if k >= len(entries):
+            dis.append((f'rroute-{nth}datagram-missing', 'a score entry',
+                        len(entries), ''))
+            break
+        lst, raw = entries[k]
+        k += 1
+        if vd.status == REFUSE:
+            dis.append((f'rroute-{nth}unrepresentable-accepted-' +
+                        '+'.join(vd.refusal_reasons()),
+                        'an exception (value has no OSC representation)',
+                        raw.hex()[:300], ''))
+            outcome.append(['accepted-unrepresentable'])
+            continue
+        dgram = raw[4:]
+        if int.from_bytes(raw[:4], 'big') != len(dgram):
+            dis.append((f'rroute-{nth}score-prefix-wrong', len(dgram),
+                        int.from_bytes(raw[:4], 'big'), ''))
+        d, dec = check_encoded(f'rroute-{nth}'.rstrip('-') if nth
+                               else 'rroute', dgram, exp, py)
+        dis += d
+        if dec is not None:
+            r = _list_vs_raw(lst, dec)
+            if r:
+                dis.append((f'rroute-{nth}raw-disagrees-with-list',
+                            _short(lst, 300), _short(dec, 300), r))
+        outcome.append(['sent', len(dgram), dec['timetag'] if dec else None])
+    if k != len(entries):
+        dis.append(('rroute-datagram-count', k, len(entries),
+                    'score entries beyond the sends made'))
+    if all(e is None for e in state['errs']) and \
+            not osc10.same_value(py, pristine):
+        # reported through its consequence (second send) when 'twice'; here
+        # only counted
+        outcome.append('input-list-altered')
+    return dis, [via, case['clock'], outcome], True
+
+
+def exp_timetag_at(lat, base):
+    return oc.exp_timetag(lat, base)
+
+
+def work_rroute(job):
+    acc = progenum.Acc()
+    for idx, case in enumerate(rroute_cases(job['thorough'])):
+        if idx % job['of'] != job['shard']:
+            continue
+        dis, outcome, nontriv = check_rroute(case)
+        for kind, exp, obs, detail in dis:
+            acc.violation(kind, case, exp, obs, detail,
+                          standalone=rroute_standalone(case))
+        acc.case(case, nontrivial=sum(case['yields']) > 0, outcome=outcome)
+        if 'input-list-altered' in outcome[2]:
+            acc.count('rroute_input_list_altered_by_send')
+    return acc.result()
+
+
+# ---------------------------------------------------------------------------
 # part split
 
 def element(spec, idx):
@@ -2028,6 +2254,8 @@ def _which(case):
         return check_bndl
     if 'deflen' in case:
         return check_drecv
+    if 'rr' in case:
+        return check_rroute
     if 'route' in case:
         return check_route_stable
     if 'api' in case:
@@ -2069,7 +2297,16 @@ def _pred_case_has(v, what):
     return False
 
 
-PREDICATES = {'case_has': _pred_case_has}
+def _pred_resent_nested_list(v):
+    """Known-finding predicate: a bundle list nested to depth >= 3 sent a
+    second time (same list object) from a routine through send_bundle."""
+    case = v['case']
+    return case.get('rr') == 'send_bundle' and bool(case.get('twice')) and \
+        bundle_depth(jv(case['data'])) >= 3
+
+
+PREDICATES = {'case_has': _pred_case_has,
+              'resent_nested_list': _pred_resent_nested_list}
 
 
 def only_leak(ctx):
@@ -2249,6 +2486,21 @@ def main(ctx):
                        'send_status_msg; UDP and TCP _send x '
                        f'{len(TRANSPORT_DATA)} packets')
     lap('route')
+    of = 16
+    jobs = [{'part': 'rroute', 'shard': i, 'of': of, 'thorough': thorough}
+            for i in range(of)]
+    progenum.run(ctx, MODNAME, 'work_rroute', jobs, mode='nrt',
+                 bound='routine sends: nested bundles (depth 2 over '
+                       f'{len(LATS_R)}^2 latencies in both element orders '
+                       'and as completion bundle through send_msg; depth 3 '
+                       f'over {len(LATS_R if thorough else LATS_S)}x'
+                       f'{len(LATS_S)}^2; depth 5) sent from a routine at '
+                       'logical times 0, 0.1, 0.25, 2.75 s (SystemClock) '
+                       'and 2.75 beats of a TempoClock(2); depth >= 3 '
+                       + ('and all others ' if thorough else '') +
+                       'also sent a second time 0.5 beats later from the '
+                       'same list object')
+    lap('rroute')
     # --- splitting
     of = 64
     sl = 3 if thorough else 2
